@@ -447,7 +447,7 @@ impl<'a> Lang<'a> {
 pub fn fn_nesting_calls() -> (Vec<String>, Vec<String>, Vec<String>) {
     let fns = ["length", "count", "value", "match", "search"];
     let arity = |f: &str| if f == "match" || f == "search" { 2 } else { 1 };
-    let simple: Vec<String> = ["1", "'a'", "null", "@.a", "@['a'][0]", "$.a", "@", "@.*", "@..a", "@[0,1]", "@[?@.a]", "@.a==1", "(@.a)", "!@.a", "@.a&&@.b", "!(!@.a)", "!(!@.*)", "(!@.a)", "((@.a))", "!((@.a))", "(!(!@.a))", "!(!(!(!@.*)))", "! ( ! @.a )", "(@.*)", "(@.a==1)", "!(@.a==1)"].iter().map(|s| s.to_string()).collect();
+    let simple: Vec<String> = ["1", "'a'", "null", "@.a", "@['a'][0]", "$.a", "@", "@.*", "@..a", "@[0,1]", "@[?@.a]", "@.a==1", "(@.a)", "!@.a", "@.a&&@.b", "!(!@.a)", "!(!@.*)", "(!@.a)", "((@.a))", "!((@.a))", "(!(!@.a))", "!(!(!(!@.*)))", "! ( ! @.a )", "(@.*)", "(@.a==1)", "!(@.a==1)", "(@[9007199254740992]==1)", "!(@.b in 1)", "(length(@.a,@.b)==1)", "(count(1)>0)", "!(@.a==9007199254740993)", "((length(@.a)))", "(match(@.a))"].iter().map(|s| s.to_string()).collect();
     let mut level1: Vec<String> = vec![];
     for f in fns {
         if arity(f) == 1 {
